@@ -48,6 +48,12 @@ Crash == /\ alive /\ Room
          /\ alive' = FALSE /\ mem' = {} /\ pc' = "idle" /\ Log(<<"crash", 0>>)
          /\ UNCHANGED <<main, backup, saves, loaded, warned, corrupted>>
 
+\* normal interpreter exit: the save registered with atexit at construction runs to completion, then the process is gone
+ExitSave == /\ alive /\ pc = "idle" /\ saves < MaxSaves /\ Room
+            /\ main' = Doc(mem) /\ backup' = Absent /\ saves' = saves + 1
+            /\ alive' = FALSE /\ mem' = {} /\ Log(<<"exit", 0>>)
+            /\ UNCHANGED <<pc, loaded, warned, corrupted>>
+
 \* a new FileSet object with the same cache file: load_cache
 Restart == /\ ~alive /\ Room
            /\ alive' = TRUE
@@ -62,7 +68,7 @@ Corrupt == /\ ~alive /\ ~corrupted /\ main.k = "doc" /\ Room
            /\ main' = Garbage /\ corrupted' = TRUE /\ Log(<<"corrupt", 0>>)
            /\ UNCHANGED <<mem, backup, pc, alive, saves, loaded, warned>>
 
-Next == (\E f \in Entries : Touch(f)) \/ SaveOpen \/ SaveWrite \/ SaveClose \/ SaveRename \/ Crash \/ Restart \/ Corrupt
+Next == (\E f \in Entries : Touch(f)) \/ SaveOpen \/ SaveWrite \/ SaveClose \/ SaveRename \/ Crash \/ ExitSave \/ Restart \/ Corrupt
 Spec == Init /\ [][Next]_vars
 
 \* ---- properties --------------------------------------------------------------
